@@ -159,7 +159,7 @@ func canonForModel(q *request, res response, after []errSnap) string {
 
 func modelOp(module string, q *request, before []errSnap) string {
 	ids := kindIDs[q.kind]
-	return fmt.Sprintf("c17serve %s 0 %s %s (%d %d %d %d %s)", module, modelTree, errsSexp(before),
+	return fmt.Sprintf("c17serve %s %s %s (%d %d %d %d %s)", module, modelTree, errsSexp(before),
 		ids[0], ids[1], 1000+q.idx, 2000+q.idx, implSexp(q))
 }
 
